@@ -207,7 +207,8 @@ def nonfinite(snap):
 # --------------------------------------------------------------- model / data
 
 def per_example_loss(params, batch, rng):
-  pred = batch['x'] @ params['w'] + params['b']
+  # 'w' is a (D, 2) matrix: a leaf with a memory layout of its own
+  pred = (batch['x'] @ params['w']) @ jnp.asarray([1.0, 0.5], jnp.float32) + params['b']
   # the rng-dependent term shifts the w-gradient by a dyadic number
   g = jax.random.randint(rng, (), -4, 5).astype(jnp.float32) / 4.0
   return (pred - batch['y']) ** 2 + g * jnp.sum(params['w'])
@@ -309,9 +310,16 @@ def make_dataset(rows, num_domains):
   })
 
 
-def init_params(p):
-  return {'w': jnp.asarray(np.asarray(p[:D], np.float32) / 8.0),
-          'b': jnp.asarray(np.float32(p[D] / 8.0))}
+def init_params(p, host=None):
+  w = np.stack([np.asarray(p[:D], np.float32) / 8.0,
+                np.asarray(p[:D][::-1], np.float32) / 16.0], axis=1)
+  b = np.float32(p[D] / 8.0)
+  if host is None:
+    return {'w': jnp.asarray(w), 'b': jnp.asarray(b)}
+  # model parameters as the user holds them on the host: NumPy arrays, the
+  # matrix possibly column-major (a transposed weight matrix)
+  w = np.asfortranarray(w) if host == 'F' else np.ascontiguousarray(w)
+  return {'w': w, 'b': np.asarray(b)}
 
 
 def build_other_instance(alg, v):
@@ -333,6 +341,8 @@ class AlgorithmSystem:
     nd = NUM_DOMAINS[self.v] if self.alg == 'agnostic' else 3
     self.datasets = [make_dataset(c['rows'], nd) for c in case['pool']]
     self.init_list = case['init']
+    self.host = case.get('host_params')
+    self.short_window = case.get('short_window')
     self.other = None
     if case.get('other_instance'):
       # The other object's past: one round from the initial parameters shifted
@@ -348,8 +358,13 @@ class AlgorithmSystem:
 
   def init(self):
     if self.alg == 'hyp_cluster':
-      return self.algorithm.init([init_params(p) for p in self.init_list])
-    return self.algorithm.init(init_params(self.init_list[0]))
+      return self.algorithm.init([init_params(p, self.host) for p in self.init_list])
+    state = self.algorithm.init(init_params(self.init_list[0], self.host))
+    if self.alg == 'agnostic' and self.short_window:
+      # a state carried over from a run with a shorter domain window (the
+      # window is a plain list inside the public ServerState dataclass)
+      state = state.replace(domain_window=list(state.domain_window[-1:]))
+    return state
 
   def make_args(self, op):
     return [(CLIENT_IDS[i], self.datasets[i], jax.random.PRNGKey(s))
@@ -498,8 +513,16 @@ def run_history(case):
         if tmp is None:
           tmp = tempfile.mkdtemp(dir='/var/tmp', prefix='C10-')
         path = os.path.join(tmp, f'state_{step}')
-        serialization.save_state(e.state, path)
-        copy = serialization.load_state(path)
+        if len(op) > 1 and op[1] == 'msgpack':
+          # the other serialiser of fedjax.serialization: the state's leaves as
+          # a msgpack list, put back into the same tree structure
+          leaves, treedef = jax.tree_util.tree_flatten(e.state)
+          data = serialization.msgpack_serialize(leaves)
+          copy = jax.tree_util.tree_unflatten(
+              treedef, serialization.msgpack_deserialize(data))
+        else:
+          serialization.save_state(e.state, path)
+          copy = serialization.load_state(path)
         csnap = snapshot(copy, 'roundtrip_copy_leaf_deleted', where)
         require_same(csnap, before, 'roundtrip_copy_differs', where)
         require_same(snapshot(e.state, 'argument_leaf_deleted', where), before,
@@ -688,6 +711,12 @@ def labels(case):
     ls.append('roundtrip_then_apply')
   if info['roundtrip_then_apply'] >= 2:
     ls.append('roundtrip_then_>=2_applies')
+  if any(op[0] == 'roundtrip' and len(op) > 1 and op[1] == 'msgpack' for op in case['ops']):
+    ls.append('roundtrip_via_msgpack_leaves')
+  if case.get('host_params'):
+    ls.append('host_numpy_params:' + case['host_params'])
+  if case.get('short_window'):
+    ls.append('agnostic_state_with_shorter_window')
   if case['system'] in ALGS:
     sizes = [len(c['rows']) // (D + 2) for c in case['pool']]
     if any(sizes[i] == 0 for op in case['ops'] if op[0] == 'apply' for i in op[1]):
@@ -735,7 +764,7 @@ def ops_strategy(draw, tier, npool, allowed):
         ops.append(['branch', target])
         cur = target
       else:
-        ops.append(['roundtrip'])
+        ops.append(['roundtrip', draw(st.sampled_from(['pickle', 'pickle', 'msgpack']))])
         cur = n_states
         n_states += 1
     how = draw(st.sampled_from(['fresh', 'fresh', 'returning', 'same']))
@@ -799,6 +828,9 @@ def algorithm_strategy(alg):
             'pool': pool,
             'ops': draw(ops_strategy(tier, npool, list(range(npool))))}
     case.update(draw(other_instance_fields(case['ops'])))
+    case['host_params'] = draw(st.sampled_from([None, None, 'F', 'C']))
+    if alg == 'agnostic':
+      case['short_window'] = draw(st.sampled_from([False, False, True]))
     return case
 
   return strategy
